@@ -529,17 +529,32 @@ func (e *eng) corrTree(r *hx.Rng) {
 				return
 			}
 			final := treeListing(t.rep, v.dev)
+			// small volumes: the model re-opens its final image from table + bytes alone (`reopen`, `reopenCheck`);
+			// the raw reader's tree (names, nesting, sizes, contents) and its verdict on the chains of the
+			// parsed entries are the real side
+			reopenCase := cfg.Size <= 300*kib
+			roCase, roImpl := []string{}, []string{}
+			if reopenCase {
+				chk := 1
+				for _, pr := range t.rep.Problems {
+					if strings.HasPrefix(pr.Code, "chain-") || pr.Code == "cross-link" {
+						chk = 0
+					}
+				}
+				roCase = []string{"reopen=1"}
+				roImpl = []string{"rtree=" + fmt.Sprint(digestStr(plainListing(t.rep, v.dev))), kv("rchk", chk)}
+			}
 			c.Case(id, "fat.tree", kv("kind", cfg.Kind), kv("max", max), kv("lim", lim), kv("start", cfg.Start), kv("datastart", dataStart),
 				kv("bpc", bpc), kv("rootcap", rootCap), kv("rootbase", rootBase), kv("rootoff", rootDirOffset+cfg.Start),
 				"rootchain="+rootChain, "entries="+entries0, "rootpre="+rootPre, kv("rootpar", rootDotDot(cfg.Kind)),
-				"ops="+strings.Join(t.ops, ","), "hyp=1")
+				"ops="+strings.Join(t.ops, ","), strings.Join(append(roCase, "hyp=1"), "\t"))
 			// hyp: the geometry and the fresh volume meet the hypotheses of the tree theorems (TGeomOk,
 			// 64 <= bytes per cluster, TInv and TFit of the initial state) and of the re-opening theorems
 			// (ImgParamsOk, NameOk of every name, OpOk of every call), evaluated by the Lean driver;
 			// dimg: after every call the bytes of every directory (root first, then listing order; time
 			// stamps masked) against the model's `image`
 			c.Impl(id, "res="+strings.Join(t.res, ","), "used="+strings.Join(t.used, ","), "steps="+strings.Join(t.steps, ","),
-				"final="+final, "table="+tableNonzero(tb), "dimg="+strings.Join(t.dimg, ","), "nsp="+strings.Join(t.nsp, ","), "hyp=1111")
+				"final="+final, "table="+tableNonzero(tb), "dimg="+strings.Join(t.dimg, ","), "nsp="+strings.Join(t.nsp, ","), strings.Join(append(roImpl, "hyp=1111"), "\t"))
 			c.Stat("corr.tree." + kind)
 			for _, cls := range t.res {
 				c.Stat("corr.tree.res." + cls)
